@@ -46,12 +46,14 @@ func genStrTmplCase(r *Rng, out *outFiles, idx int) {
 	if delim == "" {
 		// both quote characters occur raw: re-spell the literal so that one of them is escaped away
 		if idx%2 == 0 {
+			quoteAvoid = '\''
 			lit = quoteWith(r, s, '"')
-			lit = strings.ReplaceAll(lit, `'`, `\x27`)
+			quoteAvoid = 0
 			delim = `'`
 		} else {
+			quoteAvoid = '"'
 			lit = quoteWith(r, s, '\'')
-			lit = strings.ReplaceAll(lit, `"`, `\x22`)
+			quoteAvoid = 0
 			delim = `"`
 		}
 		if strings.Contains(lit, delim) {
